@@ -61,3 +61,76 @@ total3!(total3_bool, bool);
 total3!(total3_u8, u8);
 total3!(total3_u16, u16);
 total3!(total3_char, char);
+
+// ---- compound headers with hostile size / count bytes (C04 bounded; this is where `size - OFFSET` lives) ----
+use serde_amqp::Value;
+
+#[kani::proof]
+#[kani::unwind(10)]
+fn total_list8_header_vec_u8() {
+    // list8: 0xc0 size count items...
+    let size: u8 = kani::any();
+    let count: u8 = kani::any();
+    let a: u8 = kani::any();
+    let b: u8 = kani::any();
+    let n: usize = kani::any();
+    kani::assume(n <= 5);
+    let buf = [0xc0, size, count, a, b];
+    let _ = from_slice::<Vec<u8>>(&buf[..n]);
+}
+
+#[kani::proof]
+#[kani::unwind(10)]
+fn total_array8_header_vec_u8() {
+    // array8: 0xe0 size count ctor items...
+    let size: u8 = kani::any();
+    let count: u8 = kani::any();
+    let a: u8 = kani::any();
+    let b: u8 = kani::any();
+    let n: usize = kani::any();
+    kani::assume(n <= 5);
+    let buf = [0xe0, size, count, a, b];
+    let _ = from_slice::<serde_amqp::primitives::Array<u8>>(&buf[..n]);
+}
+
+#[kani::proof]
+#[kani::unwind(10)]
+fn total_map8_header() {
+    let size: u8 = kani::any();
+    let count: u8 = kani::any();
+    let a: u8 = kani::any();
+    let b: u8 = kani::any();
+    let n: usize = kani::any();
+    kani::assume(n <= 5);
+    let buf = [0xc1, size, count, a, b];
+    let _ = from_slice::<std::collections::BTreeMap<u8, u8>>(&buf[..n]);
+}
+
+#[kani::proof]
+#[kani::unwind(26)]
+fn total3_value() {
+    let b: [u8; 3] = kani::any();
+    let n: usize = kani::any();
+    kani::assume(n <= 3);
+    let _ = from_slice::<Value>(&b[..n]);
+}
+
+// C20: the stream reader and the slice reader agree and leave the tail untouched
+#[kani::proof]
+#[kani::unwind(12)]
+fn reader_agrees_u32() {
+    let b: [u8; 7] = kani::any();
+    let r1 = from_slice::<u32>(&b);
+    let mut cur = std::io::Cursor::new(&b[..]);
+    let r2 = serde_amqp::from_reader::<u32>(&mut cur);
+    match (r1, r2) {
+        (Ok(x), Ok(y)) => {
+            assert!(x == y);
+            // bytes consumed by the stream reader == length of the encoding that was decoded
+            let used = match b[0] { 0x43 => 1, 0x52 => 2, _ => 5 };
+            assert!(cur.position() as usize == used);
+        }
+        (Err(_), Err(_)) => {}
+        _ => assert!(false),
+    }
+}
